@@ -9,7 +9,7 @@ import traceback
 
 import numpy as np
 
-from sim.harness import _recv, _send
+from sim.harness import _recv, _recv_deadline, _send
 
 
 class RefZygote:
@@ -27,13 +27,13 @@ class RefZygote:
         os.close(q_r)
         os.close(a_w)
         self.pid, self.q_w, self.a_r = pid, q_w, a_r
-        msg = _recv(a_r)
+        msg = _recv_deadline(a_r, 600, "the reference zygote at start-up")
         if msg != "ready":
             raise RuntimeError("reference zygote failed: " + str(msg))
 
     def ask(self, req):
         _send(self.q_w, req)
-        return _recv(self.a_r)
+        return _recv_deadline(self.a_r, 900, "the reference zygote")
 
     @staticmethod
     def _serve(ctx, fn, name, q_r, a_w):
